@@ -236,21 +236,24 @@ class HttpWebServerPlugin(HttpProtocolHandlerPlugin):
         return chunk
 
     def _context(self) -> Dict[str, Any]:
+        # Request may contain non utf-8 bytes, never raise while logging
+        def _text(s: Any) -> Any:
+            return text_(s, errors='backslashreplace')
         return {
             'client_ip': None if not self.client.addr else self.client.addr[0],
             'client_port': None if not self.client.addr else self.client.addr[1],
             'connection_time_ms': '%.2f' % ((time.time() - self.start_time) * 1000),
             # Request
-            'request_method': text_(self.request.method),
-            'request_path': text_(self.request.path),
+            'request_method': _text(self.request.method),
+            'request_path': _text(self.request.path),
             'request_bytes': self.request.total_size + self._post_request_data_size,
             'request_ua': (
-                text_(self.request.header(b'user-agent'))
+                _text(self.request.header(b'user-agent'))
                 if self.request.has_header(b'user-agent')
                 else None
             ),
             'request_version': (
-                None if not self.request.version else text_(self.request.version)
+                None if not self.request.version else _text(self.request.version)
             ),
             # Response
             #
@@ -261,8 +264,8 @@ class HttpWebServerPlugin(HttpProtocolHandlerPlugin):
             # reason attributes.
             #
             'response_bytes': self._response_size,
-            # 'response_code': text_(self.response.code),
-            # 'response_reason': text_(self.response.reason),
+            # 'response_code': _text(self.response.code),
+            # 'response_reason': _text(self.response.reason),
         }
 
     def on_client_connection_close(self) -> None:
